@@ -243,6 +243,17 @@ impl Driver {
             _ => Via::Dynamic,
         };
         let mut via = via;
+        // a read-only accessor off the main path, probed with the very packet about to be sent
+        if matches!(pkt, Pkt::Publish { ver: Ver::V5, .. }) && !self.sink.misused {
+            match self.conn.regulate_for_store(&pkt) {
+                Err(p) => {
+                    self.sink.fail("C05", "X1-no-panic", "call=regulate_for_store".into(), p.message);
+                }
+                // (a packet the public builders refuse cannot be handed to the accessor either)
+                Ok(Err(m)) if m == "not a v5 publish" => {}
+                Ok(r) => self.model.check_regulate(&pkt, &r, &mut self.sink),
+            }
+        }
         let out = self.conn.send(&pkt, via);
         let out = match out {
             Ok(SendOutcome::NotSendable) => {
